@@ -235,7 +235,11 @@ class DCAwareRoundRobinPolicy(LoadBalancingPolicy):
         return host.datacenter or self.local_dc
 
     def populate(self, cluster, hosts):
-        for dc, dc_hosts in groupby(hosts, lambda h: self._dc(h)):
+        # hosts of one datacenter need not be adjacent
+        hosts_by_dc = {}
+        for host in hosts:
+            hosts_by_dc.setdefault(self._dc(host), []).append(host)
+        for dc, dc_hosts in hosts_by_dc.items():
             self._dc_live_hosts[dc] = tuple(set(dc_hosts))
 
         if not self.local_dc:
